@@ -361,6 +361,11 @@ class OrderedRingBuffer(Generic[FloatArray]):
         start = max(start, self.oldest_timestamp)
         end = min(end, self.newest_timestamp + self._sampling_period)
 
+        # Align the bounds to the slots they select, so that the emptiness check and
+        # the gap filling below work on the same slots as the index conversion.
+        start = self.normalize_timestamp(start)
+        end = self.normalize_timestamp(end)
+
         if start >= end:
             return np.array([]) if isinstance(self._buffer, np.ndarray) else []
 
